@@ -161,7 +161,7 @@ def select_backend(backend, ext_path):
         os.environ["PENDULUM_EXTENSIONS"] = "0"
     else:
         os.environ["PENDULUM_EXTENSIONS"] = "1"
-        if ext_path and not ext_path.startswith("/repo/"):
+        if ext_path and ROOT in os.path.realpath(ext_path):
             from tools import build_ext
 
             build_ext.inject(ext_path)
